@@ -230,11 +230,13 @@ def h3_cases():
     # default-argument pair: the handler must receive the argument (overload with most arguments)
     yield (100, "onFiredDefault", HEAD + "    VObj {\n        id: t\n        onFiredDefault: function(x: int) { a.done(x) }\n    }\n    VObj { id: t2 }\n}\n",
            [("e2", "t->firedDefault(5);"), ("e2b", "t->firedDefault(6);")])
+    yield (103, "onChain3", HEAD + "    VObj {\n        id: t\n        onChain3: function(x: int, y: QString) { a.done(x); a.say(y) }\n    }\n    VObj { id: t2 }\n}\n",
+           [("chain3", "t->chain3(8, QString(u\"z\"));")])
     yield (101, "onOChanged", HEAD + "    VObj {\n        id: t\n        onOChanged: function(x: int) { a.done(x) }\n    }\n    VObj { id: t2 }\n}\n",
            [("e9", "t->setO(4);")])
     # real Qt classes: inherited signal with default argument, notify signal
     yield (102, "onClicked", "import qmluic.QtWidgets\nQWidget {\n    id: root\n    VObj { id: a }\n    VObj { id: b0 }\n    VObj { id: c0 }\n"
-           "    QPushButton { id: t; onClicked: function(on: bool) { a.sayBool(on) } onToggled: a.done(7) }\n}\n",
+           "    QPushButton {\n        id: t\n        onClicked: function(on: bool) { a.sayBool(on) }\n        onToggled: a.done(7)\n    }\n}\n",
            [("clicked", "t->clicked(true);"), ("toggled", "t->toggled(false);"), ("pressed", "t->pressed();")])
 
 
@@ -281,7 +283,7 @@ def judge_h3(t, p, res):
                 t.violation(f"wiring:{what}", {"source": m["source"], "emitted": code, "expected": want_effects, "observed": have})
         else:
             want = {"e2": "1#a.done(5);", "e2b": "1#a.done(6);", "e9": "1#t.setO(4);a.done(4);",
-                    "clicked": "2#a.sayBool(true);", "toggled": "2#a.done(7);", "pressed": "2#"}[label]
+                    "chain3": "1#a.done(8);a.say(s:007a);", "clicked": "2#a.sayBool(true);", "toggled": "2#a.done(7);", "pressed": "2#"}[label]
             if have != want:
                 t.violation(f"wiring:argument-or-overload:{m['handler']}", {"source": m["source"], "emitted": code,
                                                                           "expected": want, "observed": have})
@@ -290,6 +292,8 @@ def judge_h3(t, p, res):
 
 REJECTS = [
     ("ambiguous-overload", "onAmb: a.act()"), ("ambiguous-overload-with-parameter", "onAmb: function(x: int) {}"),
+    ("default-argument-entry-plus-two-real-overloads", "onTri: a.act()"),
+    ("default-argument-entry-plus-two-real-overloads-with-parameter", "onTri: function(x: int) {}"),
     ("slot-not-signal", "onDone: a.act()"), ("method-not-signal", "onTwice: a.act()"), ("unknown-signal", "onNoSuchSignal: a.act()"),
     ("property-not-signal", "onI: a.act()"), ("too-many-parameters", "onFired: function(x: int) {}"),
     ("too-many-parameters-2", "onFiredWith: function(x: int, y: QString, z: int) {}"),
